@@ -522,6 +522,9 @@ func (t *tr2) stmt2(s ast.Stmt) string {
 		if !ok || call.Ellipsis != token.NoPos {
 			t.fail(x, "expression statement")
 		}
+		if isGosched(call) {
+			return "YSkip"
+		}
 		switch f := call.Fun.(type) {
 		case *ast.Ident:
 			if f.Name == "panic" && !t.shadowed("panic") && !t.fileDeclares("panic") && len(call.Args) == 1 {
